@@ -24,7 +24,7 @@ RULE = (
     'distinct MSD arrays (rounded to 1e-9)'
 )
 LEVEL_TEXT = (
-    'Bounded-exhaustive over all step histories of the alphabet up to 6 (quick) / 9 (thorough) frames, '
+    'Bounded-exhaustive over all step histories of the alphabet up to 6 (quick) / 8 (thorough) frames, '
     'multi-atom tracks, all lattices and every length up to 48; MSD at every lag, distances and tracer '
     'diffusivity are compared with the O(T^2) definition on independently unwrapped Cartesian positions.'
 )
@@ -33,7 +33,8 @@ TECHNIQUE = 'bounded-exhaustive input-shape enumeration against the O(T^2) defin
 ASSUMPTIONS = ['every step is shorter than half a cell (otherwise the minimum image legitimately differs from the true motion)']
 
 STEPS = [-0.45, -0.2, 0.0, 0.2, 0.45]
-TMAX = {'quick': 6, 'thorough': 9}
+TMAX = {'quick': 6, 'thorough': 8}
+CAPS = {'thorough': 2400}
 ANG2 = 1e-20
 
 
